@@ -31,6 +31,13 @@ def rule_text(cond):
     return PRELUDE + "rule t { strings: %s condition: %s }" % (strs, cond)
 
 
+def occurrences(buf, pat):
+    out, i = [], buf.find(pat)
+    while i >= 0:
+        out.append([i, len(pat)]); i = buf.find(pat, i + 1)
+    return out
+
+
 def make_records(res, prop, groups, metas, wd, name, variant="asan"):
     records, owners = [], []
     rejected = 0
@@ -56,7 +63,16 @@ def make_records(res, prop, groups, metas, wd, name, variant="asan"):
                     res.violation("scan of a well-typed condition failed with error %d: %s" % (g["rets"][bi], text[:200]), rp)
                     continue
                 sc = g["scans"][bi]
-                m = {k: [[o, l] for o, l, kk, p in sc["t"]["strings"].get(k, [])] for k in cg.STRS}
+                reported = {k: [[o, l] for o, l, kk, p in sc["t"]["strings"].get(k, [])] for k in cg.STRS}
+                # the oracle evaluates the condition on the TRUE occurrences of the three literal strings in the buffer, not on the
+                # lists the scan reported: a shortcut that drops matches (fixed offset of `$a at <constant>`, fast mode) must not
+                # change the verdict (C12); a reported match that is not an occurrence is a violation here as well
+                m = {k: occurrences(b, cg.STR_TEXT[k]) for k in cg.STRS}
+                for k in cg.STRS:
+                    extra = [x for x in reported[k] if x not in m[k]]
+                    if extra:
+                        rp = yv.save_replay(prop, "invented_%d_%d" % (ci + gi, bi), {"cond": text, "buf": b.hex(), "string": k, "reported": reported[k], "occurrences": m[k]})
+                        res.violation("the scan reported matches of %s that are not occurrences of it: %s (condition %s)" % (k, extra[:4], text[:120]), rp)
                 env = {"buf": list(b), "filesize": len(b), "entrypoint": -1, "m": m, "ext": metas[ci + gi][2] if len(metas[ci + gi]) > 2 else EXT_ENV,
                        "rules": {"r_true": True, "r_false": False, "r_true2": True}}
                 records.append({"kind": "cond", "ast": cg.strip_for_tla(ast), "env": env, "obs": sc["t"]["verdict"]})
@@ -64,6 +80,24 @@ def make_records(res, prop, groups, metas, wd, name, variant="asan"):
                 res.count(1, (text, b))
     res.cov["parts"][name + "_compile_rejected"] = rejected
     return records, owners
+
+
+def signed_read_cond(r, g):
+    def rd(n, be, k, signed=True):
+        return {"t": "uint", "n": n, "be": be, "signed": signed, "x": {"t": "bin", "op": "-", "l": {"t": "filesize"}, "r": {"t": "int", "v": k}}}
+    def one():
+        n = r.choice([1, 2, 2, 4, 4]); be = r.random() < 0.6; k = r.choice([8, 8, 7, 6, 5])
+        e = rd(n, be, k)
+        c = r.random()
+        if c < 0.35: return {"t": "cmp", "op": r.choice(["<", ">=", "<=", ">"]), "l": e, "r": {"t": "int", "v": r.choice([0, 0, 1, 127, 128, 255])}}
+        if c < 0.55: return {"t": "cmp", "op": r.choice(["<", "=="]), "l": {"t": "bin", "op": r.choice(["+", "-"]), "l": e, "r": {"t": "int", "v": r.choice([1, 5, 256])}}, "r": {"t": "int", "v": r.choice([0, 1, 5])}}
+        if c < 0.75: return {"t": "cmp", "op": r.choice(["<", "==", "!=", ">"]), "l": e, "r": rd(n, not be, k)}
+        if c < 0.9: return {"t": "cmp", "op": r.choice(["==", "<"]), "l": e, "r": rd(n, be, k, signed=False) if n < 4 else {"t": "neg", "x": {"t": "int", "v": r.choice([1, 2, 100])}}}
+        return {"t": "cmp", "op": "==", "l": {"t": "bin", "op": r.choice(["\\", "%", ">>", "&"]), "l": e, "r": {"t": "int", "v": r.choice([2, 3, 7])}}, "r": {"t": "int", "v": r.choice([0, 1, 2])}}
+    a = one()
+    if r.random() < 0.5:
+        a = {"t": r.choice(["and", "or"]), "l": a, "r": r.choice([one(), g.bool_expr(1)])}
+    return a
 
 
 def c04(res, tier, seed):
@@ -75,7 +109,17 @@ def c04(res, tier, seed):
         bufs = [cond_buffer(r) for _ in range(4 if tier == "quick" else 6)] + [b""]
         fs = len(bufs[0])
         g = cg.Gen(r, fs)
-        ast = g.bool_expr(r.choice([1, 2, 2, 3]))
+        if i % 12 == 5:
+            # signed readers on bytes with the top bit set: an 8-byte tail H s s H s s s s (H >= 0x80) - every generated unsigned
+            # 32-bit read stays below 2^31 (TLC integers), the signed 8/16/32-bit reads at filesize-8 .. filesize-5 are negative
+            tail = lambda: bytes([r.choice([0x80, 0xff, 0xfe, 0x9c]), r.randrange(0x40), r.randrange(0x40), r.choice([0x80, 0xff, 0xc3]),
+                                  r.randrange(0x40), r.randrange(0x40), r.randrange(0x40), r.randrange(0x40)])
+            bufs = [(b if len(b) >= 12 else b + b"................"[:12 - len(b)]) + tail() for b in bufs[:-1]] + [b""]
+            fs = len(bufs[0])
+            g = cg.Gen(r, fs)
+            ast = signed_read_cond(r, g)
+        else:
+            ast = g.bool_expr(r.choice([1, 2, 2, 3]))
         text = cg.show(ast)[0]
         groups.append({"src": rule_text(text), "bufs": bufs, "pre": EXT_DEFS})
         metas.append((text, ast))
@@ -88,4 +132,4 @@ def c04(res, tier, seed):
                        "enumerations, intN/uintN[be], filesize, rule references, externals of 4 types, undefined module values; printed with minimal parentheses; "
                        "each (condition, buffer) verdict judged by Cond!Verdict in TLC on the observed match lists")
     res.assumptions += ["integer magnitudes are kept below 2^22 (TLC integers are 32-bit); 64-bit wrap-around is not modelled",
-                        "match lists given to the oracle are the ones the scan reported (their correctness is C01's subject)"]
+                        "the oracle evaluates conditions on the true occurrences of the literal strings (computed from the buffer); reported matches must be among them"]
